@@ -1135,6 +1135,77 @@ Proof.
   - unfold day_ns, hour_ns. lia.
 Qed.
 
+(* A zone like Pacific/Apia at the end of 2011 (or Pacific/Kiritimati at the end of 1994): it moves across the date line
+   and local day 1 never happens — the instant that ends local day 0 begins local day 2.  The day start the environment
+   gives for a value naming day 1 is the first instant after the gap, the midnight of day 2 (envs.DateTimeFromString),
+   so in this calendar [midnight 1 = midnight 2]: day 1 is 0 hours long, the 24-hour hypothesis of
+   date_by_calendar_day_local fails for it, and the code answers the query for day 2 instead: a contact at noon of local
+   day 2 satisfies `= day 1`.  This is the harness class date-comparison:queried-day-skipped-by-zone.  Every other day of
+   the zone satisfies both hypotheses. *)
+Definition cal_skip : calendar := {|
+  midnight := fun d => (if d <=? 1 then d * day_ns else (d - 1) * day_ns)%Z;
+  local_day := fun t => (if t <? day_ns then t / day_ns else t / day_ns + 1)%Z
+|}.
+
+Lemma cal_skip_day_never : forall t, local_day cal_skip t <> 1%Z.
+Proof.
+  intros t. unfold cal_skip. cbn [local_day].
+  pose proof (div_iff t day_ns 1 day_ns_pos) as D1. pose proof (div_iff t day_ns 0 day_ns_pos) as D0.
+  destruct (Z.ltb_spec t day_ns); lia.
+Qed.
+
+Lemma cal_skip_day_empty : midnight cal_skip (1 + 1) = midnight cal_skip 1
+  /\ midnight cal_skip (1 + 1) <> (midnight cal_skip 1 + day_ns)%Z.
+Proof. split; [reflexivity|]. vm_compute. discriminate. Qed.
+
+Lemma cal_skip_other_days : forall d, d <> 1%Z ->
+  day_ok cal_skip d /\ (midnight cal_skip (d + 1) = midnight cal_skip d + day_ns)%Z.
+Proof.
+  intros d Hd. unfold day_ok, cal_skip. cbn [midnight local_day].
+  assert (C : (d <= 0 \/ 2 <= d)%Z) by lia. destruct C as [C|C].
+  - replace (d <=? 1)%Z with true by (symmetry; apply Z.leb_le; lia).
+    replace (d + 1 <=? 1)%Z with true by (symmetry; apply Z.leb_le; lia).
+    split; [split|].
+    + intros t. pose proof (Z.div_mod t day_ns ltac:(unfold day_ns; lia)) as D1.
+      pose proof (Z.mod_pos_bound t day_ns day_ns_pos) as M1.
+      unfold day_ns in *. destruct (Z.ltb_spec t 86400000000000); lia.
+    + intros t. pose proof (div_iff t day_ns d day_ns_pos) as D1.
+      pose proof (Z.div_mod t day_ns ltac:(unfold day_ns; lia)) as D2.
+      pose proof (Z.mod_pos_bound t day_ns day_ns_pos) as M2.
+      unfold day_ns in *. destruct (Z.ltb_spec t 86400000000000); lia.
+    + lia.
+  - replace (d <=? 1)%Z with false by (symmetry; apply Z.leb_gt; lia).
+    replace (d + 1 <=? 1)%Z with false by (symmetry; apply Z.leb_gt; lia).
+    split; [split|].
+    + intros t. pose proof (Z.div_mod t day_ns ltac:(unfold day_ns; lia)) as D1.
+      pose proof (Z.mod_pos_bound t day_ns day_ns_pos) as M1.
+      unfold day_ns in *. destruct (Z.ltb_spec t 86400000000000); lia.
+    + intros t. pose proof (div_iff t day_ns (d - 1) day_ns_pos) as D1.
+      pose proof (Z.div_mod t day_ns ltac:(unfold day_ns; lia)) as D2.
+      pose proof (Z.mod_pos_bound t day_ns day_ns_pos) as M2.
+      unfold day_ns in *. destruct (Z.ltb_spec t 86400000000000); lia.
+    + lia.
+Qed.
+
+(* the code's answer on the skipped day: the contact is at noon of local day 2, the query names day 1 *)
+Lemma date_skipped_day_fails_on_contact :
+  exists (e : env) (r : resolver) (c : contact) (pt : ptype) (key v : text) (t : Z),
+    resolve_value_type r pt key = Some FDatetime /\ v <> [] /\ query_property c pt key = [VTime t]
+    /\ e_day_start e v = Some (midnight cal_skip 1)
+    /\ local_day cal_skip t = 2%Z
+    /\ eval_contact e r (Cond pt key OpEq v) c = RBool true
+    /\ eval_contact e r (Cond pt key OpGt v) c = RBool false.
+Proof.
+  exists
+    {| e_lower := fun x => x; e_tokens := fun _ => []; e_day_start := fun _ => Some day_ns;
+       e_valid_lang := fun _ => true |},
+    {| r_field := fun _ => None; r_group := fun _ => false; r_flow := fun _ => false |},
+    {| c_uuid := []; c_name := []; c_lang := []; c_urns := []; c_ticket := false;
+       c_created := (day_ns + 12 * hour_ns)%Z; c_last_seen := None; c_fields := []; c_groups := [] |},
+    PAttr, k_created_on, [50; 48; 49; 49]%N, (day_ns + 12 * hour_ns)%Z.
+  repeat split. discriminate.
+Qed.
+
 (* the contact side of the cost bound: a stored number that flows.ReadContact accepts (model: stored_number_ok, compared
    with the real reader on every run) has an exponent within +-max(1000, length of its stored text); together with
    validated_number_bounded the two numbers Decimal.Cmp rescales are at most 1000 + max(1000, len) decimal places apart *)
